@@ -104,3 +104,103 @@ func c07ManyBlocks(r *Run) {
 		}
 	}
 }
+
+// c07PanickingCallback: a callback that panics at record k; the caller recovers (as an HTTP
+// handler or a worker pool does) and carries on reading other files and the same file again.
+// Every later read delivers exactly its file's records: nothing the interrupted read held
+// (pooled banks and buffers, decompressor state, locks) leaks into them.
+func c07PanickingCallback(r *Run) {
+	type row struct {
+		V int64   `json:"v"`
+		S string  `json:"s"`
+		P *string `json:"p"`
+	}
+	schema := `{"type":"record","name":"Row","fields":[{"name":"v","type":"long"},{"name":"s","type":"string"},{"name":"p","type":["null","string"]}]}`
+	mk := func(codec string, n, base int) ([]byte, []row) {
+		ct := &Container{SchemaJSON: []byte(schema), Codec: codec, Sync: randSync(r.Rng)}
+		var want []row
+		for len(want) < n {
+			cnt := 1 + r.Rng.Intn(4)
+			var payload []byte
+			for k := 0; k < cnt; k++ {
+				v := row{V: int64(base + len(want)), S: fmt.Sprintf("s-%d-%d", base, len(want))}
+				payload = append(payload, specVarint(v.V)...)
+				payload = append(payload, specVarint(int64(len(v.S)))...)
+				payload = append(payload, v.S...)
+				if len(want)%2 == 0 {
+					p := fmt.Sprintf("p-%d", base+len(want))
+					v.P = &p
+					payload = append(payload, 2)
+					payload = append(payload, specVarint(int64(len(p)))...)
+					payload = append(payload, p...)
+				} else {
+					payload = append(payload, 0)
+				}
+				want = append(want, v)
+			}
+			ct.Blocks = append(ct.Blocks, CBlock{Count: int64(cnt), Payload: payload})
+		}
+		return ct.Bytes(false), want
+	}
+	read := func(file []byte, panicAt int) (got []row, err error, recovered any) {
+		defer func() { recovered = recover() }()
+		err = avro.ReadFile(bufio.NewReaderSize(bytes.NewReader(file), 64), &row{}, func(val unsafe.Pointer, rb *avro.ResourceBank) error {
+			if len(got) == panicAt {
+				panic("callback gives up")
+			}
+			v := *(*row)(val)
+			if v.P != nil {
+				p := *v.P
+				v.P = &p
+			}
+			v.S = string(append([]byte{}, v.S...))
+			got = append(got, v)
+			rb.Close()
+			return nil
+		})
+		return
+	}
+	same := func(a, b []row) int {
+		if len(a) != len(b) {
+			return min(len(a), len(b))
+		}
+		for i := range a {
+			if a[i].V != b[i].V || a[i].S != b[i].S || (a[i].P == nil) != (b[i].P == nil) || (a[i].P != nil && *a[i].P != *b[i].P) {
+				return i
+			}
+		}
+		return -1
+	}
+	n := r.N(12, 60)
+	for it := 0; it < n; it++ {
+		codecA, codecB := codecNames[it%3], codecNames[(it/3)%3]
+		fa, wa := mk(codecA, 8+r.Rng.Intn(20), 1000*it)
+		fb, wb := mk(codecB, 8+r.Rng.Intn(20), 1000*it+500)
+		k := r.Rng.Intn(len(wa))
+		desc := map[string]any{"history": fmt.Sprintf("ReadFile(A, %s) whose callback panics at record %d and is recovered; ReadFile(B, %s); ReadFile(A) again", codecA, k, codecB), "A": hexs(fa), "B": hexs(fb)}
+		got, _, rec := read(fa, k)
+		r.Count("panicking-callback/histories")
+		if rec == nil {
+			r.Fail(-1, "callback-panic-swallowed", fmt.Sprintf("the callback panicked at record %d and ReadFile returned normally", k), desc)
+			continue
+		}
+		if d := same(got, wa[:k]); d >= 0 {
+			r.Fail(-1, "valid-records", fmt.Sprintf("records delivered before the callback panicked differ from the file at %d", d), desc)
+		}
+		for step, f := range []struct {
+			file []byte
+			want []row
+			name string
+		}{{fb, wb, "B"}, {fa, wa, "A again"}} {
+			got, err, rec := read(f.file, -1)
+			if rec != nil || err != nil {
+				r.Fail(-1, "valid-rejected", fmt.Sprintf("step %d (%s) after a recovered callback panic: error %v panic %v", step+2, f.name, err, rec), desc)
+				break
+			}
+			if d := same(got, f.want); d >= 0 {
+				r.Fail(-1, "valid-records", fmt.Sprintf("step %d (%s) after a recovered callback panic: %d records, written %d, first difference at %d", step+2, f.name, len(got), len(f.want), d), desc)
+				break
+			}
+		}
+	}
+}
